@@ -645,48 +645,53 @@ func (server *SugarDB) evictKeysWithExpiredTTL(ctx context.Context) error {
 
 	database := ctx.Value("Database").(int)
 
-	// Sample size should be the configured sample size, or the size of the keys with expiry,
+	// Sample size should be the configured sample size, or the number of keys with expiry in this database,
 	// whichever one is smaller.
 	sampleSize := int(server.config.EvictionSample)
 	if len(server.keysWithExpiry.keys[database]) < sampleSize {
-		sampleSize = len(server.keysWithExpiry.keys)
+		sampleSize = len(server.keysWithExpiry.keys[database])
 	}
-	keys := make([]string, sampleSize)
+	keys := make([]string, 0, sampleSize)
 
 	deletedCount := 0
 	thresholdPercentage := 20
 
 	var idx int
 	var key string
-	for i := 0; i < len(keys); i++ {
-		for {
-			// Retry retrieval of a random key until we find a key that is not already in the list of sampled keys.
-			idx = rand.Intn(len(server.keysWithExpiry.keys))
-			key = server.keysWithExpiry.keys[database][idx]
-			if !slices.Contains(keys, key) {
-				keys[i] = key
-				break
-			}
+	for len(keys) < sampleSize {
+		// Retry retrieval of a random key until we find a key that is not already in the list of sampled keys.
+		idx = rand.Intn(len(server.keysWithExpiry.keys[database]))
+		key = server.keysWithExpiry.keys[database][idx]
+		if !slices.Contains(keys, key) {
+			keys = append(keys, key)
 		}
 	}
 	server.keysWithExpiry.rwMutex.RUnlock()
 
 	// Loop through the keys and delete them if they're expired
 	server.storeLock.Lock()
-	defer server.storeLock.Unlock()
 	for _, k := range keys {
+		// Only a key whose deadline has passed is deleted
+		entry, ok := server.store[database][k]
+		if !ok || entry.ExpireAt == (time.Time{}) || !entry.ExpireAt.Before(server.clock.Now()) {
+			continue
+		}
 		// Delete the expired key
 		deletedCount += 1
 		if !server.isInCluster() {
 			if err := server.deleteKey(ctx, k); err != nil {
+				server.storeLock.Unlock()
 				return fmt.Errorf("evictKeysWithExpiredTTL -> standalone delete: %+v", err)
 			}
 		} else if server.isInCluster() && server.raft.IsRaftLeader() {
 			if err := server.raftApplyDeleteKey(ctx, k); err != nil {
+				server.storeLock.Unlock()
 				return fmt.Errorf("evictKeysWithExpiredTTL -> cluster delete: %+v", err)
 			}
 		}
 	}
+	// The lock is released before sampling again below
+	server.storeLock.Unlock()
 
 	// If sampleSize is 0, there's no need to calculate deleted percentage.
 	if sampleSize == 0 {
